@@ -33,18 +33,27 @@ pub(crate) async fn listen(
         }
     };
 
-    tokio::select! {
+    let shutdown_requested = tokio::select! {
         x = shutdown_notification.wait() => {
             match x {
                 Ok(_) => (),
                 Err(e) => log_id!(debug, log_id, "Shutdown notification failure: {}", e),
             }
+            true
         },
-        _ = listen_task => (),
-        _ = tokio::time::sleep(timeout) => log_id!(debug, log_id, "Session timed out"),
-    }
+        _ = listen_task => false,
+        _ = tokio::time::sleep(timeout) => {
+            log_id!(debug, log_id, "Session timed out");
+            false
+        }
+    };
 
-    if let Err(e) = codec.graceful_shutdown().await {
+    let closed = if shutdown_requested {
+        crate::shutdown::close_within_bound(codec.graceful_shutdown()).await
+    } else {
+        codec.graceful_shutdown().await
+    };
+    if let Err(e) = closed {
         log_id!(debug, log_id, "Failed to shut down session: {}", e);
     }
 }
